@@ -37,9 +37,10 @@ class Model:
 
     def __init__(self):
         self.deadline = {}
+        self.reject = False  # instance mode: the listener refuses new subscriptions for K2
 
     def _canon_(self, now):
-        return tuple(sorted((k, (v - now) if v is not None else None) for k, v in self.deadline.items()))
+        return (tuple(sorted((k, (v - now) if v is not None else None) for k, v in self.deadline.items())), self.reject)
 
 
 class Sys(e1.TimedSys):
@@ -86,6 +87,8 @@ class Sys(e1.TimedSys):
                 acts.append(("stop", k, a))
         for a in self.addrs:
             acts.append(("removeall", a))
+        if self.cfg.get("reject") and self.mode == "instance":
+            acts.append(("reject", not self.model.reject))
         return acts
 
     # -- the real calls -------------------------------------------------------------------
@@ -98,6 +101,8 @@ class Sys(e1.TimedSys):
             else:
                 self.inst.handle_subscribe(sub_entry(k, ttl), A[a])
             if (a, k) not in self.model.deadline:
+                if self.mode == "instance" and self.model.reject and k == "K2":
+                    return  # refused by the listener: not recorded, nothing reported, no timer may remain
                 self.expect.append((now, "new", k, a))
             self.model.deadline[(a, k)] = None if ttl == INF else now + ttl
         elif act[0] == "stop":
@@ -109,6 +114,12 @@ class Sys(e1.TimedSys):
             if (a, k) in self.model.deadline:
                 del self.model.deadline[(a, k)]
                 self.expect.append((now, "gone", k, a))
+        elif act[0] == "reject":
+            self.model.reject = act[1]
+            if act[1]:
+                self.listener.reject.add(6)
+            else:
+                self.listener.reject.discard(6)
         elif act[0] == "removeall":
             a = act[1]
             if self.mode == "discover":
@@ -156,6 +167,8 @@ class Sys(e1.TimedSys):
     def after_step(self, ev):
         got = []
         for t, it, name, kind, obj, src in self.log[self.nlog:]:
+            if kind == "rejected":
+                continue
             if self.mode == "discover":
                 k = {1: "K1", 2: "K2"}[obj.instance_id]
                 kk = {"offered": "new", "stopped": "gone"}[kind]
@@ -220,7 +233,7 @@ def configs(ctx):
                          fine=ctx.pick(2, 3)), CLOSURE))
         out.append((f"{mode}-2keys-1addr",
                     dict(mode=mode, keys=("K1", "K2"), addrs=("A1",), ttls=(1, 2, INF), advs=base_advs + ("jump",),
-                         fine=ctx.pick(1, 2)), CLOSURE))
+                         fine=ctx.pick(1, 2), reject=True), CLOSURE))
         # two keys, two addresses, the long TTLs
         out.append((f"{mode}-2keys-2addrs",
                     dict(mode=mode, keys=("K1", "K2"), addrs=("A1", "A2"), ttls=(1, 3, 0xFFFFFE, INF), advs=base_advs,
